@@ -181,28 +181,6 @@ func steps(p probe, wire []byte) []srvh.Step {
 	return out
 }
 
-// modelEvents renders the steps for the model; two more deadline firings are appended, which is
-// what the scripted conn does once the script is exhausted (they are no-ops in a final phase).
-func modelEvents(st []srvh.Step, startNs, hour int64) []string {
-	var evs []string
-	now := startNs + 1000
-	for _, s := range st {
-		switch s.K {
-		case "c":
-			evs = append(evs, fmt.Sprintf("r:%s:%d:%d", vlib.Hex(s.B), now, hour))
-		case "t":
-			evs = append(evs, fmt.Sprintf("t:%d:%d", now, hour))
-		case "e":
-			evs = append(evs, fmt.Sprintf("e:%d:%d", now, hour))
-		case "s":
-			now += int64(s.Ms) * 1_000_000
-		}
-		now += 1000
-	}
-	evs = append(evs, fmt.Sprintf("t:%d:%d", now, hour), fmt.Sprintf("t:%d:%d", now+1000, hour))
-	return evs
-}
-
 // ---------------------------------------------------------------- executing a group
 
 type facRef struct {
@@ -306,7 +284,7 @@ func runGroup(w *worker, g group, record bool) bool {
 	// evaluate (the model is fed the same history in the same order)
 	for _, d := range done {
 		p, res := d.p, d.res
-		evs := modelEvents(d.st, res.StartNs, hour)
+		evs := res.Conn.ModelEvents(hour)
 		m := w.srv.ConnRun(fname, res.StartNs, res.TapeUsed, evs)
 		key, _ := json.Marshal(struct {
 			G uint64
@@ -618,6 +596,34 @@ func genGroup(rng *vlib.Rng) group {
 		p.Expect = "either"
 		add(p)
 	}
+	// the same valid handshake with the handshake deadline firing at EVERY read boundary before
+	// its end (never MAC-validated, so the bytes stay fresh), then delivered without pause: answered
+	if rng.Intn(4) == 0 {
+		p := hsProbe(rng, "pause-sweep", 0)
+		p.PadLen = rng.Range(77, 300)
+		n := hsLen(p)
+		p.Cuts = o4h.Chunks(rng, "bounds", n, marksOf(n))
+		first := -1
+		for k := 0; k < len(p.Cuts); k++ {
+			q := p
+			if first >= 0 {
+				q = probe{Class: "pause-sweep", Kind: "hs", SameAs: first, Cuts: p.Cuts, SrvSeed: rng.U64()}
+			}
+			q.Script = nil
+			for j := 0; j < len(p.Cuts); j++ {
+				if j == k {
+					q.Script = append(q.Script, "t")
+				}
+				q.Script = append(q.Script, "c")
+			}
+			q.Expect = "either"
+			i := add(q)
+			if first < 0 {
+				first = i
+			}
+		}
+		add(probe{Class: "pause-sweep-then-valid", Kind: "hs", SameAs: first, Cuts: p.Cuts, SrvSeed: rng.U64(), Expect: "answered"})
+	}
 	// a valid handshake with a pause / disconnect somewhere
 	{
 		p := hsProbe(rng, "valid+pause", 0)
@@ -686,27 +692,53 @@ func main() {
 	// thorough: the one branch virtual time cannot reach — the failure is detected *after* the
 	// close deadline (closeDelay = 0 and the base deadline fires for real after 30 s)
 	if r.Thorough() {
-		wg.Add(1)
-		go func() {
-			defer wg.Done()
-			sw := &worker{srv: &srvh.Srv{D: r.Driver("o4srv")}, ref: &o4h.Ref{D: r.Driver("o4ref")}}
-			srng := vlib.NewRng(r.Seed ^ 0x51ee9)
-			for tries := 0; tries < 5000; tries++ {
-				seed := srng.U64()
-				id := o4h.NewIdentity(vlib.NewRng(seed), 0)
-				if _, cd, ok := sw.srv.FacNew("probe", id); ok && cd == 0 {
-					g := group{IdSeed: seed, Sleeper: true, Probes: []probe{
-						{Class: "late-timeout(real 30 s)", Kind: "junk", SameAs: -1, Script: []string{"s30300", "t"}, SrvSeed: srng.U64(), Expect: "silent"}}}
-					runGroup(sw, g, true)
-					g2 := group{IdSeed: seed, Sleeper: true, Probes: []probe{
-						{Class: "late-junk(real 30 s)", Kind: "junk", Seed: 7, Len: 9000, SameAs: -1, Script: []string{"s30200", "c"}, SrvSeed: srng.U64(), Expect: "silent"}}}
-					runGroup(sw, g2, true)
-					r.Notes["real_time_late_cases"] = 2
-					return
+		sw := &worker{srv: &srvh.Srv{D: r.Driver("o4srv")}, ref: &o4h.Ref{D: r.Driver("o4ref")}}
+		srng := vlib.NewRng(r.Seed ^ 0x51ee9)
+		var seed0, seed1 uint64
+		var have0, have1 bool
+		for tries := 0; tries < 5000 && !(have0 && have1); tries++ {
+			seed := srng.U64()
+			id := o4h.NewIdentity(vlib.NewRng(seed), 0)
+			if _, cd, ok := sw.srv.FacNew("probe", id); ok {
+				if cd == 0 && !have0 {
+					seed0, have0 = seed, true
+				}
+				if cd == 1 && !have1 {
+					seed1, have1 = seed, true
 				}
 			}
-			r.Notes["real_time_late_cases"] = "no seed with closeDelay 0 found"
-		}()
+		}
+		empty := func() probe {
+			return probe{Class: "empty", Kind: "junk", SameAs: -1, SrvSeed: srng.U64(), Expect: "silent"}
+		}
+		var sleepers []group
+		if have0 {
+			sleepers = append(sleepers,
+				group{IdSeed: seed0, Sleeper: true, Probes: []probe{empty(),
+					{Class: "late-timeout(real 30 s)", Kind: "junk", SameAs: -1, Script: []string{"s30300", "t"}, SrvSeed: srng.U64(), Expect: "silent"}}},
+				group{IdSeed: seed0, Sleeper: true, Probes: []probe{empty(),
+					{Class: "late-junk(real 30 s)", Kind: "junk", Seed: 7, Len: 9000, SameAs: -1, Script: []string{"s30200", "c"}, SrvSeed: srng.U64(), Expect: "silent"}}})
+		}
+		if have1 {
+			// bytes trickling in with real pauses that add up to more than 30 s + closeDelay: the
+			// handshake deadline is absolute, the close time does not move
+			sleepers = append(sleepers,
+				group{IdSeed: seed1, Sleeper: true, Probes: []probe{empty(),
+					{Class: "trickle(real 31.5 s)", Kind: "junk", Seed: 9, Len: 4, SameAs: -1, Cuts: []int{1, 1, 1, 1},
+						Script: []string{"c", "s10500", "c", "s10500", "c", "s10500", "c"}, SrvSeed: srng.U64(), Expect: "silent"}}})
+		}
+		r.Notes["real_time_groups"] = len(sleepers)
+		for i, g := range sleepers {
+			wg.Add(1)
+			go func(i int, g group) {
+				defer wg.Done()
+				w := sw
+				if i > 0 {
+					w = &worker{srv: &srvh.Srv{D: r.Driver("o4srv")}, ref: &o4h.Ref{D: r.Driver("o4ref")}}
+				}
+				runGroup(w, g, true)
+			}(i, g)
+		}
 	}
 	ch := make(chan group)
 	for _, w := range workers {
